@@ -61,6 +61,8 @@ FAMILIES = [
     ('b_opt_then_bracket', BS + 'b[§]{§}[§]', [M('b', G('[', ']', CH(H(0))), G('{', '}', CH(H(1)))), CH('[', H(2), ']')]),
     ('c_star', BS + 'c¶*‡', [M('c', CH('*'))]),
     ('c_nostar', BS + 'c‡', [M('c', None)]),
+    ('c_double_star', BS + 'c**§', [M('c', CH('*')), CH('*', H(0))]),
+    ('p_double_plus', BS + 'p++§', [M('p', CH('+')), CH('+', H(0))]),
     ('c_star_eof', '§' + BS + 'c*', [CH(H(0)), M('c', CH('*'))]),
     ('e_full', BS + 'e*¶[§]¶{§}‡', [M('e', CH('*'), G('[', ']', CH(H(1))), G('{', '}', CH(H(3))))]),
     ('e_nostar', BS + 'e¶[§]¶{§}', [M('e', None, G('[', ']', CH(H(1))), G('{', '}', CH(H(3))))]),
